@@ -162,6 +162,10 @@ def run_case(case, reports=False, keep_objects=False):
             args.append("--capture" if cfg.get("cap_out", True) else "--no-capture")
             args.append("--capture-stderr" if cfg.get("cap_err", True) else "--no-capture-stderr")
             args.append("--logcapture" if cfg.get("cap_log", True) else "--no-logcapture")
+        if cfg.get("loglevel"):
+            args.append("--logging-level=%s" % cfg["loglevel"])
+        if cfg.get("logfilter"):
+            args.append("--logging-filter=%s" % cfg["logfilter"])
         try:
             config = Configuration(command_args=args, load_config=False)
         except SystemExit:
@@ -179,7 +183,9 @@ def run_case(case, reports=False, keep_objects=False):
             events.append(_ev("step", el=sid, pos=pos, outcome=o, att=att, **probe(ctx)))
             print("O%d_%d" % (sid, pos))
             print("E%d_%d" % (sid, pos), file=sys.stderr)
+            logging.getLogger("verif").debug("D%d_%d", sid, pos)
             logging.getLogger("verif").warning("L%d_%d", sid, pos)
+            logging.getLogger("other").error("G%d_%d", sid, pos)
             if cfg.get("chatty") and pos == 1:
                 for _i in range(1001):          # more records than the capture handler's nominal capacity
                     logging.getLogger("verif.filler").warning("filler %d", _i)
@@ -365,7 +371,7 @@ def run_case(case, reports=False, keep_objects=False):
     captured = [[] for _ in range(n)]
 
     def marks(text):
-        return sorted(set(re.findall(r"\b[OELHNA][ba]?\d+_\d+\b", text or "")))
+        return sorted(set(re.findall(r"\b[OELHNADG][ba]?\d+_\d+\b", text or "")))
 
     def walk(x):
         i = elid(x)
